@@ -14,6 +14,7 @@ from common import show_list, frac_str
 LEVEL = "other"
 LEAN_PROPS = ["FastTicc.Props.C03", "FastTicc.Props.C11", "FastTicc.Props.C02matrix", "FastTicc.Props.OptPhase"]
 LEAN_HELPERS = ["FastTicc.Proofs.Admm", "FastTicc.Proofs.AdmmMatrix"]
+LEAN_TRANSLATED = {"FastTicc.Props.TrFloor": ["_zero_small_elements"]}
 RULE = ("(a) the X-update eigenvalue map over 26 orders of magnitude of d (model at Float in both algebraic forms, real "
         "x_update_prox on 1x1 problems); (b) the optimiser entry point on covariances scaled 1e-12..1e12: full rank, rank "
         "deficient (fewer points than dimensions, duplicated points, constant sensors, single point); (c) complete runs on "
@@ -305,4 +306,23 @@ def run(ctx):
     for (c, out), mo in zip(raws, ctx.driver.run(lines)):
         if mo != show_list([Fraction(float(v)) for v in out.reshape(-1)], frac_str):
             ctx.violation("correspondence-break", "floorFilter vs _reconstruct_optimized_matrix", c)
+    # the floor filter TRANSLATED from the source (Generated/Kernels.lean; theorem zero_small_elements_eq) against the
+    # implementation's own helper on the same matrices, both values of its copy flag
+    zse = getattr(gl, "_zero_small_elements", None)
+    if zse is not None:
+        gen_cases = []
+        for c in floors:
+            rs = np.random.RandomState(c["seed"] + 1)
+            n = c["n"]
+            A = np.round(rs.uniform(-1, 1, size=(n, n)) * 16) / 16
+            A[rs.rand(n, n) < 0.3] *= 0.125
+            eps = float(Fraction(c["eps"]))
+            for flag in (True, False):
+                try:
+                    got = zse(A.copy(), eps, flag)
+                except Exception:
+                    continue
+                rows_ = lambda M: show_list([[Fraction(float(v)) for v in r] for r in M], lambda r: show_list(r, frac_str), ";")
+                gen_cases.append((f"{rows_(A)} {frac_str(Fraction(eps))} {'true' if flag else 'false'}", "ok " + rows_(got), c))
+        ctx.gen_compare("_zero_small_elements", gen_cases)
     ctx.count("floor_cases", len(floors))
